@@ -18,6 +18,8 @@ def check(ctx):
     with ctx.only(lambda k: k in ("compact-as/insert", "compact-as/eligibility", "compact-as/uint-set", "compact-as/call-sites")):
         from . import c08
         c08.compact_as(ctx)
+    with ctx.only(lambda k: k == "derives-tokens"):
+        c08.check(ctx)          # `exactly the global derives and attributes`: each list is emitted whole and under its own guard
     with ctx.only(lambda k: k in ("item/struct", "fields/struct", "fields/enum", "fields/compact-attr", "fields/box-wrap", "item/helper-ident", "item/helper-docs")):
         G.item_templates(ctx, "C18.2")
         G.field_templates(ctx, "C18.2", strict_alloc=False)
